@@ -38,6 +38,12 @@ def main():
         # 1. suite with the change, without the demo
         rc, o = sh(f"git apply {os.path.abspath(src)}/patch.diff", cwd=wt)
         if rc != 0:
+            # the patch was written against an older /repo head: three-way merge
+            rc, o = sh(f"git apply -3 {os.path.abspath(src)}/patch.diff && git reset -q", cwd=wt)
+            meta["patch_applied_with_3way_merge"] = (rc == 0)
+            if rc == 0:
+                sh(f"git diff > {wt}-rebased.diff", cwd=wt)
+        if rc != 0:
             print("patch does not apply:", o); meta["confirmed"] = False; meta["why"] = "patch does not apply"; return finish(meta, src, name, None)
         rc, o = sh("go build ./... && go test -vet=off -count=1 ./...", cwd=wt, timeout=1800)
         meta["suite_passes_with_change"] = (rc == 0)
@@ -56,7 +62,10 @@ def main():
         os.remove(os.path.join(wt, demo_path))
         meta["confirmed"] = bool(meta["suite_passes_with_change"] and meta["demo_fails_with_change"] and meta["demo_passes_without_change"])
         # 4. checks against the changed tree
-        sh(f"git apply {os.path.abspath(src)}/patch.diff", cwd=wt)
+        if meta.get("patch_applied_with_3way_merge"):
+            sh(f"git apply {wt}-rebased.diff", cwd=wt)
+        else:
+            sh(f"git apply {os.path.abspath(src)}/patch.diff", cwd=wt)
         results = {}
         for p in [prop] + also:
             t0 = time.time()
@@ -91,6 +100,13 @@ def finish(meta, src, name, demo_path):
         notes = open(os.path.join(src, "notes.md")).read()
     meta["needs_to_manifest"] = notes[:1500]
     meta.pop("demo_output_with_change_tail", None)
+    reb = None
+    for f in os.listdir("/tmp"):
+        if f.startswith(f"ev-{name}-") and f.endswith("-rebased.diff"):
+            reb = os.path.join("/tmp", f)
+    if reb and meta.get("patch_applied_with_3way_merge"):
+        shutil.copy(reb, os.path.join(dst, f"patch.rebased-on-{meta['repo_head']}.diff"))
+        os.remove(reb)
     json.dump(meta, open(os.path.join(dst, "meta.json"), "w"), indent=1)
     print(f"stored {dst}; caught={meta.get('caught')}")
 
